@@ -63,7 +63,10 @@ func c25Elements(k c25Kind) []uint64 {
 	max := ^uint64(0) >> (64 - w)
 	if !k.float {
 		signBit := uint64(1) << (w - 1)
-		return []uint64{0, 1, 2, 7, 8, 9, 10, 15, 16, 100, 255 & max, signBit - 1, signBit, signBit + 1, max - 1, max, max / 3, 0xAAAAAAAAAAAAAAAA & max, 0x123456789ABCDEF0 & max}
+		top := w - 8
+		return []uint64{0, 1, 2, 7, 8, 9, 10, 15, 16, 100, 255 & max, signBit - 1, signBit, signBit + 1, max - 1, max, max / 3, 0xAAAAAAAAAAAAAAAA & max, 0x123456789ABCDEF0 & max,
+			// elements whose zero-filled text begins like another base's prefix or an exponent: 0b…, 0e…, 0d…
+			0x0b, 0x0e, 0x0b << top, 0x0b<<top | max>>8, 0x0b<<top | 0x11, 0x0e << top, 0x0e<<top | 1, 0x0d << top, 0xb1 & max, 0x0b<<top | 0x01<<(top/2)}
 	}
 	var vals []float64
 	vals = append(vals, 0, math.Copysign(0, -1), 1, -1, 1.5, -2.25, 0.1, 1.0/3, 100, 255, 256, 65536, 1e10, -1e-10, 9223372036854775808, -9223372036854775808, 18446744073709551616, math.Inf(1), math.Inf(-1))
